@@ -275,6 +275,7 @@ static void runL2m(const plan::Plan& p, hz::RunResult* res, bool verbose) {
           fill(o.l.has("master") ? ref::unhex(o.l.get("master")) : (*pMaster)[name], &master);
           SlaveSymbolString slave;   // stays empty for broadcast and master-master telegrams, as in the protocol handler
           if (!o.l.get("slave").empty()) fill(ref::unhex(o.l.get("slave")), &slave);
+          map->invalidateCache(m);   // as BusHandler does in front of every store
           o.result = m->storeLastData(master, slave);
         } else {
           o.result = -999;
@@ -755,6 +756,16 @@ static plan::Plan genC17(uint64_t seed, const std::string& tier) {
     p.add(buf);
     p.add("refpoll name=" + name + " p=" + std::to_string(prio));
     names.push_back(name);
+  }
+  if (r.chance(0.3)) {
+    // two definitions whose IDs (more than 4 bytes) fold to the same map key, as b524 020000003400 / b524 030000003500 of a real configuration
+    int pa = 1 + static_cast<int>(r.below(9)), pb = 1 + static_cast<int>(r.below(9));
+    snprintf(buf, sizeof(buf), "def l=r%d,cir,fold0,,,08,b524,020000003400,,,UCH", pa); p.add(buf);
+    p.add("refpoll name=fold0 p=" + std::to_string(pa));
+    snprintf(buf, sizeof(buf), "def l=r%d,cir,fold1,,,08,b524,030000003500,,,UCH", pb); p.add(buf);
+    p.add("refpoll name=fold1 p=" + std::to_string(pb));
+    names.push_back("fold0");
+    names.push_back("fold1");
   }
   if (r.chance(0.25)) {
     // a message without own priority that is referenced by a condition must get polled as well
